@@ -220,10 +220,10 @@ pub fn checks() -> Vec<Check> {
     v.push(Check {
         prop: "C17",
         parts: vec![Part { name: "S-xen", xen: true, quick: 600_000, thorough: 30_000_000 }, Part { name: "S-mem", xen: false, quick: 600_000, thorough: 20_000_000 }, Part { name: "S-xen/concurrent", xen: true, quick: 200_000, thorough: 10_000_000 }],
-        rule: "runs are histories of up to 10 access operations (buffer / object / typed-ref / element-array / atomic / slice-to-slice / stream / descriptor accesses and pointer-guard inspections, offsets within a page and across page boundaries, element types of 1-32 bytes) on one Xen region - grant mapped on demand, grant mapped in advance, foreign, or plain unix - over an emulated gntdev/privcmd device, with now and then the next map ioctl or mmap made to fail; plus, in the standard build, the S-mem histories whose pointer-guard inspections (slice, typed reference, element array, last element; read and mutable guards) compare len() and as_ptr() with the accessor; distinct = distinct event-log hash; non-trivial = a device-backed region and more than one operation or an injected failure",
+        rule: "runs are histories of up to 10 access operations (buffer / object / typed-ref / element-array / atomic / slice-to-slice / stream / descriptor accesses and pointer-guard inspections, offsets within a page and across page boundaries, element types of 1-32 bytes) on one Xen region - grant mapped on demand, grant mapped in advance, foreign, or plain unix - over an emulated gntdev/privcmd device, with now and then the next map ioctl or mmap made to fail; plus, in the standard build, the S-mem histories whose pointer-guard inspections (slice, typed reference, element array, last element; read and mutable guards) compare len() and as_ptr() with the accessor; the sequential part also injects failing unmap ioctls, issues accesses under a held pointer guard whose own map request fails, holds a guard across the drop of its region; a concurrent part (S-xen/concurrent) runs two coroutine threads on one on-demand region, each in its own pages, switched at every map / unmap ioctl, mmap and munmap; distinct = distinct event-log hash; non-trivial = a device-backed region and more than one operation or an injected failure",
         assumptions: COMMON_ASSUMPTIONS.to_vec(),
         real: vec!["vm_memory::mmap::xen (MmapXen, MmapXenGrant, MmapXenForeign, MmapXenSlice), PtrGuard, volatile_memory accessors (compiled from /repo working tree with the xen feature)", "kernel mmap/munmap of the device memfd"],
-        stub: vec!["Xen gntdev/privcmd ioctls: emulated device over a sparse memfd that is the guest's memory", "simulated MMU: windows are placed inside PROT_NONE reservations; the seams check every touched byte before the access", "injected ioctl / mmap failures"],
+        stub: vec!["Xen gntdev/privcmd ioctls: emulated device over a sparse memfd that is the guest's memory", "simulated MMU: windows are placed inside PROT_NONE reservations; the seams check every touched byte before the access", "injected ioctl / mmap / unmap-ioctl failures", "S-xen/concurrent: thread scheduling (coroutines switched at the mapping seams)"],
         needs_seam_events: true,
     });
     v
